@@ -39,7 +39,7 @@ def plan(tier, seed):
     shards = []
     n = 16 if q else 64
     for i in range(n):
-        shards.append({"kind": "hist", "n": 80 if q else 700, "slot": i})
+        shards.append({"kind": "hist", "n": 80 if q else 700, "slot": i, "env": {"PYTHONHASHSEED": str(i % 5)}})
     return shards
 
 
